@@ -12,6 +12,7 @@ import (
 	"os"
 	"os/exec"
 	"path/filepath"
+	"runtime"
 	"strings"
 	"sync"
 	"syscall"
@@ -145,6 +146,29 @@ func ConfigYAML(walletDir string, port int, backendURL string, chainID *int64, l
 	return sb.String()
 }
 
+// Pdeathsig is delivered when the *thread* that forked the child exits.  All children
+// are therefore started from one goroutine that is locked to its OS thread and lives
+// as long as the test binary, so the signal means exactly "the harness is gone".
+var (
+	spawnOnce sync.Once
+	spawnReq  chan func()
+)
+
+func startOnSpawner(cmd *exec.Cmd) error {
+	spawnOnce.Do(func() {
+		spawnReq = make(chan func())
+		go func() {
+			runtime.LockOSThread()
+			for f := range spawnReq {
+				f()
+			}
+		}()
+	})
+	done := make(chan error, 1)
+	spawnReq <- func() { done <- cmd.Start() }
+	return <-done
+}
+
 // ErrBinary marks a missing or unusable ffsigner binary (infrastructure, not a verdict).
 var ErrBinary = errors.New("ffsigner binary not available")
 
@@ -204,7 +228,7 @@ func StartSigner(o SignerOptions) (*Signer, error) {
 		cmd.Env = []string{"PATH=/usr/local/bin:/usr/bin:/bin", "HOME=" + o.Dir, "TMPDIR=" + o.Dir}
 		cmd.Stdout, cmd.Stderr = s.log, s.log
 		cmd.SysProcAttr = &syscall.SysProcAttr{Pdeathsig: syscall.SIGKILL}
-		if err := cmd.Start(); err != nil {
+		if err := startOnSpawner(cmd); err != nil {
 			return nil, fmt.Errorf("%w: %v", ErrBinary, err)
 		}
 		s.cmd, s.Pid = cmd, cmd.Process.Pid
